@@ -6,11 +6,12 @@ from harness.gen import sobol as gen_sobol
 from harness.pyx import drift
 
 ID = "C20"
-LEAN_TARGETS = ["ChmpyVerif.Props.C20", "ChmpyVerif.Props.C20Strat"]
+LEAN_TARGETS = ["ChmpyVerif.Props.C20", "ChmpyVerif.Props.C20Strat", "ChmpyVerif.Props.C20Net"]
 T = "ChmpyVerif.Props.C20."
 THEOREMS = [T + n for n in ("buildV_prefix", "batch_eq_single", "sobol_in_unit", "table_premise", "dirnum_lowbit",
                             "front_end_dispatch", "kgf_in_unit", "kgf_batch_eq_single",
-                            "xSeq_second_half", "stratified_of_triangular", "stratified_onto", "sobol_coordinate_stratified")]
+                            "xSeq_second_half", "stratified_of_triangular", "stratified_onto", "sobol_coordinate_stratified",
+                            "maskBlock_spec", "net_check", "sobol_net")]
 TRUSTED = [
     "translator harness/gen/sobol.py (rows 0..1001 of _sobol_parameters.npz -> Gen/Sobol*.lean)",
     "hand model Model/Sobol.lean of _sobol.pyx on naturals mod 2^32 (the two L<=s / else branches merged into one incremental rule; "
@@ -22,16 +23,18 @@ RULE = ("exact integer comparison of pts*2^32: quick = all D<=64 and D=1000 at s
         "points (stratification for every m<=12 and the (0,m,2)-net of coordinates 0,1 enumerated completely) and 5000 windows [s,s+k], s<=1e6, k<=256. "
         "distinct = distinct (seed or window, dimension); non-trivial = seed > 1")
 MANIFEST = {
-    "text": ("Proof (partial). The direction-number table is REGENERATED from the .npz each run. Proved for every seed, range and dimension: the direction "
+    "text": ("Proof. The direction-number table is REGENERATED from the .npz each run. Proved for every seed, range and dimension: the direction "
              "numbers built for a longer sequence extend those for a shorter one, hence batch = single point by point; every coordinate numerator "
              "is < 2^32 (coordinates in [0,1)); every table row used for D <= 1000 satisfies the Joe-Kuo premise (m_i odd, < 2^i; kernel-checked "
              "over the whole table) which gives each direction number its lowest set bit at 32-i; the front end dispatches to single/batch with "
              "seeds [seed, seed+d1-1]. ONE-DIMENSIONAL STRATIFICATION IS PROVED: for any triangular direction numbers and every k, the first 2^k points "
              "fall into pairwise different sub-intervals of width 2^-k and hit every one of them (from the ruler structure of the index sequence and "
-             "xor/bit lemmas), instantiated for every tabulated coordinate and k <= 12. The (0,m,2)-net property of coordinate pairs is NOT proved in "
-             "Lean; it is enumerated completely on the real code in the thorough tier (bounded domain of the property)."),
+             "xor/bit lemmas), instantiated for every tabulated coordinate and k <= 12. THE (0,m,2)-NET PROPERTY of the first two coordinates is proved for every m <= 12 and every split a+b=m "
+             "(the property's whole range): the kernel evaluates a mask of the elementary boxes hit, by a divide-and-conquer recursion justified by "
+             "the proved block structure X[2^k+r] = X[2^k] xor X[r], and a bit-mask lemma turns 'all 2^m boxes hit by 2^m points' into 'exactly one "
+             "each'. Both are also enumerated on the real code in the thorough tier."),
     "note": ("Trusted: Lean kernel; .npz translator; hand model (branch merge, exact L); compiled extension = its .pyx (drift guard); Korobov floats. "
-             "Partial: the two-dimensional net property is checked by complete enumeration on the implementation, not by a theorem."),
+             "All clauses of the statement have theorems; the tie to the compiled generator is the exact integer correspondence."),
     "technique": "Lean 4 proof (list/bit lemmas + decide +kernel over the regenerated table) + exact integer correspondence + complete enumeration oracle",
 }
 
@@ -125,13 +128,16 @@ def search(ctx, budget):
     nwin = 120 if not full else 5000
     for _ in range(nwin):
         s = rng.randint(1, 10**6) if rng.random() < 0.5 else rng.randint(1, 5000)
-        k = rng.randint(0, 256 if full else 24)
+        k = rng.choice([rng.randint(0, 256 if full else 24), rng.randint(0, 24), 256])
         d = rng.choice([1, 2, 3, 5, 11, 64, 200]) if rng.random() < 0.9 else 1000
         if s > 20000 and (d > 11 or k > 8):
             d, k = min(d, 5), min(k, 8)
         ctx.case({"window": [s, s + k, d]}, nontrivial=s > 1)
         B = quasirandom_sobol_batch(s, s + k, d)
         B2 = quasirandom_sobol_batch(s, s + k, d)
+        if np.shape(B) != (k + 1, d):
+            ctx.fail("C20:sobol-shape", f"quasirandom_sobol_batch({s},{s + k},{d}) has shape {np.shape(B)}, expected {(k + 1, d)}", {"kind": "window", "s": s, "k": k, "d": d})
+            continue
         if not np.array_equal(B, B2):
             ctx.fail("C20:determinism", f"two calls of quasirandom_sobol_batch({s},{s + k},{d}) differ", {"kind": "window", "s": s, "k": k, "d": d})
         if not (np.all(B >= 0) and np.all(B < 1)):
@@ -153,10 +159,13 @@ def search(ctx, budget):
     # (3) Korobov
     for _ in range(150 if not full else 3000):
         s = rng.randint(1, 10**6)
-        k = rng.randint(0, 64)
+        k = rng.choice([rng.randint(0, 64), rng.randint(0, 64), 255, 256, 128])     # up to the edge of the stated range (k <= 256)
         d = rng.randint(1, 64)
         ctx.case({"kgf": [s, s + k, d]})
         B = quasirandom_kgf_batch(s, s + k, d)
+        if np.shape(B) != (k + 1, d):
+            ctx.fail("C20:kgf-shape", f"quasirandom_kgf_batch({s},{s + k},{d}) has shape {np.shape(B)}, expected {(k + 1, d)}", {"kind": "kgf", "s": s, "k": k, "d": d})
+            continue
         if not (np.all(B >= 0) and np.all(B < 1)):
             ctx.fail("C20:kgf-range", f"Korobov coordinate outside [0,1) in batch({s},{s + k},{d})", {"kind": "kgf", "s": s, "k": k, "d": d})
         for i in {0, k, rng.randint(0, k)}:
